@@ -223,6 +223,9 @@ func checkC17(c *Ctx) {
 
 	// ---- O6 vector identity -----------------------------------------------------------------------------
 	c.checkVectorIdentity("O6 vector-identity")
+
+	// ---- O7 collaborators ---------------------------------------------------------------------------------
+	c.checkPromCollaborators("O7 collaborators")
 }
 
 func (c *Ctx) checkPromAllocator(rule string, fn *ssa.Function, fOnErr *types.Var, handleMethods []string) {
@@ -1230,4 +1233,168 @@ func dominatesAllLatches(b *ssa.BasicBlock, l *loopInfo) bool {
 		}
 	}
 	return true
+}
+
+// checkPromCollaborators (O7): the registerer every vector is registered with, the gatherer the HTTP
+// handler gathers from and the error callback are never nil in a reporter NewReporter returns, and a
+// default only fills a gap. On the option cells of NewReporter:
+//   - every store into opts.Registerer / opts.Gatherer / opts.OnRegisterError is guarded by the edge
+//     `that option == nil` (a caller's choice is never overridden), and stores a value that cannot be
+//     nil (a closure, a package-level default of the Prometheus client, the result of a type assertion
+//     on its ok edge - a failed assertion yields a typed nil that compares unequal to nil later);
+//   - the load that initialises the reporter's field is dominated by a test `option == nil` from whose
+//     nil edge every path to the load passes a store into the option.
+func (c *Ctx) checkPromCollaborators(rule string) {
+	const pk = "prometheus"
+	fn := c.fn(pk, "", "NewReporter")
+	if fn == nil || len(fn.Params) != 1 {
+		c.missing(rule, "prometheus.NewReporter(opts)")
+		return
+	}
+	// the spilled parameter
+	var cell *ssa.Alloc
+	for _, r := range *fn.Params[0].Referrers() {
+		if st, ok := r.(*ssa.Store); ok && st.Val == ssa.Value(fn.Params[0]) {
+			cell, _ = st.Addr.(*ssa.Alloc)
+		}
+	}
+	if cell == nil {
+		c.undecided(rule, c.fnKey(fn), fn.Pos(), "the options parameter is not kept in a local cell")
+		return
+	}
+	c.sawFunc(c.fnKey(fn))
+	for _, pr := range [][2]string{{"Registerer", "registerer"}, {"Gatherer", "gatherer"}, {"OnRegisterError", "onRegisterError"}} {
+		fOpt := c.field(pk, "Options", pr[0])
+		fRep := c.field(pk, "reporter", pr[1])
+		if fOpt == nil || fRep == nil {
+			c.missing(rule, "prometheus.Options."+pr[0]+" / reporter."+pr[1])
+			continue
+		}
+		key := c.fnKey(fn) + ":" + pr[0]
+		isCellAddr := func(a ssa.Value) bool {
+			f, base := addrField(a)
+			return f == fOpt && base == ssa.Value(cell)
+		}
+		isLoad := func(v ssa.Value) bool {
+			u, ok := v.(*ssa.UnOp)
+			return ok && u.Op == token.MUL && isCellAddr(u.X)
+		}
+		nilTest := func(cond ssa.Value) (bool, bool) {
+			o, x, y, ok := cmpOf(cond)
+			if !ok {
+				return false, false
+			}
+			if isNilConst(x) {
+				x, y = y, x
+			}
+			if !isNilConst(y) || !isLoad(x) {
+				return false, false
+			}
+			return true, o == token.EQL
+		}
+		var problems []string
+		var at ssa.Instruction
+		nStores := 0
+		instrsOf(fn, func(in ssa.Instruction) {
+			st, ok := in.(*ssa.Store)
+			if !ok || !isCellAddr(st.Addr) {
+				return
+			}
+			nStores++
+			if guardedByEdge(st, nilTest) == nil {
+				problems = append(problems, "a value is stored into opts."+pr[0]+" on a path where the caller's own "+pr[0]+" was not found to be nil: the caller's choice is overridden (or a missing one is not replaced)")
+				at = st
+			}
+			// the stored value cannot be nil
+			v := stripConv(st.Val)
+			okVal := false
+			switch x := v.(type) {
+			case *ssa.MakeClosure, *ssa.Function:
+				okVal = true
+			case *ssa.UnOp:
+				if g, isG := x.X.(*ssa.Global); isG && x.Op == token.MUL && g.Pkg != fn.Pkg {
+					okVal = true // a package-level default of the Prometheus client (assumption: not nil)
+				}
+			case *ssa.Extract:
+				if ta, isTA := x.Tuple.(*ssa.TypeAssert); isTA && ta.CommaOk && x.Index == 0 {
+					if guardedByEdge(st, func(cond ssa.Value) (bool, bool) {
+						e, isE := cond.(*ssa.Extract)
+						return isE && e.Tuple == x.Tuple && e.Index == 1, true
+					}) != nil {
+						okVal = true
+					} else {
+						problems = append(problems, "the result of a type assertion is stored without being on its ok edge: a failed assertion stores a typed nil, which the later `== nil` test does not see, and gathering dereferences it")
+						at = st
+						okVal = true
+					}
+				}
+			case *ssa.Call:
+				okVal = true
+			}
+			if !okVal {
+				problems = append(problems, "the default stored into opts."+pr[0]+" is not known to be non-nil")
+				at = st
+			}
+		})
+		// the load that reaches the reporter
+		var load ssa.Instruction
+		instrsOf(fn, func(in ssa.Instruction) {
+			st, ok := in.(*ssa.Store)
+			if !ok {
+				return
+			}
+			if f, _ := addrField(st.Addr); f == fRep {
+				if l, isL := st.Val.(*ssa.UnOp); isL && isLoad(l) {
+					load = l
+				} else {
+					problems = append(problems, "reporter."+pr[1]+" is not initialised from opts."+pr[0])
+					at = st
+				}
+			}
+		})
+		if load == nil {
+			problems = append(problems, "no store of opts."+pr[0]+" into reporter."+pr[1]+" found")
+		} else {
+			covered := false
+			for _, b := range fn.Blocks {
+				iff, isIf := condOf(b)
+				if !isIf {
+					continue
+				}
+				m, onTrue := nilTest(iff.Cond)
+				if !m || !dominates(iff, load) {
+					continue
+				}
+				idx := 1
+				if onTrue {
+					idx = 0
+				}
+				succ := b.Succs[idx]
+				if len(succ.Instrs) == 0 {
+					continue
+				}
+				// from the nil edge every path to the load passes a store into the option
+				if reachAvoiding(succ.Instrs[0], true, func(i ssa.Instruction) bool { return i == load }, func(i ssa.Instruction) bool {
+					st, ok := i.(*ssa.Store)
+					return ok && isCellAddr(st.Addr)
+				}) == nil {
+					covered = true
+				}
+			}
+			if !covered {
+				problems = append(problems, "no test `opts."+pr[0]+" == nil` whose nil edge always stores a default precedes the construction of the reporter: a reporter built from Options without "+pr[0]+" dereferences nil when it registers, gathers or reports a registration error")
+				at = load
+			}
+		}
+		if len(problems) > 0 {
+			pos := fn.Pos()
+			tr := ""
+			if at != nil {
+				pos, tr = at.Pos(), c.describe(at)
+			}
+			c.bad(rule, key, pos, problems[0], tr)
+		} else {
+			c.ok(rule, key, load.Pos(), fmt.Sprintf("reporter.%s = opts.%s, defaulted on the nil edge of `opts.%s == nil`; all %d stores into the option fill a gap with a non-nil value", pr[1], pr[0], pr[0], nStores))
+		}
+	}
 }
